@@ -257,12 +257,14 @@ def _branch(draw, e, cur, bounds, proj, skip_t):
 def nested_cases(draw):
     """chain of 3 matmuls where two neighbours share one more loop than the third:
     for m: [T_outer] split( for n_inner: [T_inner] split(Ea, Eb) , Ec )"""
-    es, rvs = G.chain(3)
+    wlk = draw(st.sampled_from(["chain3", "chain3", "skip3"]))
+    es, rvs = G.chain(3) if wlk == "chain3" else G.skip3()
     bounds = {rv: draw(st.sampled_from([1, 2, 2, 3, 4])) for rv in rvs}
     proj = {t: p for e in es for t, p, _ in e["tensors"]}
-    group = draw(st.sampled_from(["01", "12"]))
+    # skip3 (T1 also read by the last Einsum) only with the (E1,E2) group: T1 outer, T2 inner
+    group = draw(st.sampled_from(["01", "12"])) if wlk == "chain3" else "12"
     t_inner, t_outer, inner_rv = ("T1", "T2", "n1") if group == "01" else ("T2", "T1", "n2")
-    main_t = ["T0", "W0", "W1", "W2", "T3"]
+    main_t = ["T0", "W0", "W1", "W2", "T3"] if wlk == "chain3" else ["T0", "W0", "W1", "T3"]
     cur = dict(bounds)
 
     def maybe_loop(rv, force=False):
@@ -294,7 +296,7 @@ def nested_cases(draw):
     nodes = [mem_node("Main", "inf"), mem_node("GLB", "inf"), {"type": "Compute", "name": "MAC", "compute": [1, 1], "leak": 0}]
     nodes[0]["keep"] = "~Intermediates"
     nodes[1]["keep"] = "~Main"
-    spec = {"einsums": es, "bounds": bounds, "bits": {"All": bits}, "nodes": nodes, "shape": "chain3-nested" + group}
+    spec = {"einsums": es, "bounds": bounds, "bits": {"All": bits}, "nodes": nodes, "shape": wlk + "-nested" + group}
     return {"kind": "fused", "spec": spec, "tree": tree, "fused": ["T1", "T2"], "n_shared_loops": len(outer) + n_inner_loops,
             "size_choice": {"GLB": draw(st.integers(0, 5))}}
 
